@@ -93,10 +93,15 @@ Fixpoint vars (t : tm) : list N :=
   | IfLe a b t e => vars a ++ vars b ++ vars t ++ vars e
   end.
 
-(* record literals: field name, priority annotation, optional definition *)
-Record fdef : Type := { fprio : prio; fbody : option tm }.
+(* record literals: field name, priority annotation, optional definition; [fdyn]: the name is
+   written as an interpolated string ("%{n}" = ...), so it is not in scope of the bodies of the
+   literal (free_vars.rs: rec_fields are the static fields; eval/mod.rs: "the recursive environment
+   only contains the static fields, and not the dynamic fields") *)
+Record fdef : Type := { fprio : prio; fbody : option tm; fdyn : bool }.
 Definition literal : Type := list (N * fdef).
 Definition lit_names (l : literal) : list N := map fst l.
+Definition lit_scope (l : literal) : list N :=
+  map fst (filter (fun kd => negb (fdyn (snd kd))) l).
 
 (* override histories: step [i] may use the results of steps [< i] *)
 Inductive step : Type :=
